@@ -102,6 +102,10 @@ func syntaxCase(in []byte) (msg string, accepted bool) {
 }
 
 var byteAlpha = []string{"a", "(", ")", ",", "[", "\"", "/", "\n", " ", "\r", "\\"}
+// lineAlpha: whole lines, so that block structures with comments in every position (after the opening
+// parenthesis, before and after the closing one, between lines) are reachable at small depth.
+var lineAlpha = []string{"a (\n", "a ( //c\n", "b\n", "b c //d\n", "//e\n", "\n", ")\n", ") //f\n", "a ()\n", "x (y) z\n", "\"q r\" s\r\n", "  //g  \n"}
+
 var atomAlpha = []string{"a", "b", "(", ")", "[", "]", ",", "\"s t\"", "`r`", "//c", "// d ", "\n", "\r\n", " ", "\t", "a//"}
 
 // ---------------------------------------------------------------- directive layer
@@ -182,14 +186,16 @@ func Run(r *fw.Run) {
 	r.Bounds["byte_max_len"] = L
 	r.Bounds["atom_alphabet"] = atomAlpha
 	r.Bounds["atom_max_depth"] = D
+	r.Bounds["line_alphabet"] = lineAlpha
+	r.Bounds["line_max_depth"] = r.Pick(6, 7)
 	r.Bounds["max_statements"] = K
-	r.Rule = "syntax layer: every byte string over the byte alphabet up to byte_max_len and every concatenation of up to atom_max_depth atoms is parsed by the syntax-only parser; for accepted inputs the formatted output must parse, flatten to the same position-ordered sequence of statements/tokens/comment texts, and re-format to itself. Directive layer: every file of <= max_statements statement variants (kind x layout x quoting x comments) x separator x line ending, through Parse/ParseLax/ParseWork with and without a version fixer: directive values before and after formatting equal, formatting idempotent. non-trivial = input accepted by the parser"
+	r.Rule = "syntax layer: every byte string over the byte alphabet up to byte_max_len, every concatenation of up to atom_max_depth atoms, every sequence of up to line_max_depth lines of the line alphabet, and every generated file is parsed by the syntax-only parser; for accepted inputs the formatted output must parse, flatten to the same position-ordered sequence of statements/tokens/comment texts, and re-format to itself. Directive layer: every file of <= max_statements statement variants (kind x layout x quoting x comments) x separator x line ending, through Parse/ParseLax/ParseWork with and without a version fixer: directive values before and after formatting equal, formatting idempotent. non-trivial = input accepted by the parser"
 	r.Assume = []string{"comment texts are compared in document (byte position) order, not by attachment point; blank-line markers and surrounding white space of comments are formatting (DESIGN 7)"}
 	for _, sp := range []struct {
 		name  string
 		alpha []string
 		depth int
-	}{{"bytes", byteAlpha, L}, {"atoms", atomAlpha, D}} {
+	}{{"bytes", byteAlpha, L}, {"atoms", atomAlpha, D}, {"lines", lineAlpha, r.Pick(6, 7)}} {
 		sp := sp
 		enum.Strings(sp.alpha, sp.depth, fw.Workers(), func(w int) (func([]byte, int), func()) {
 			l := fw.NewLocal()
@@ -238,6 +244,14 @@ func Run(r *fw.Run) {
 					}
 					if f.Lax && layer == "mod" {
 						continue
+					}
+					if !fix && layer != "mod-lax" {
+						// comments and tokens of the whole file, through the syntax-only parser
+						l.Execs++
+						if m, _ := syntaxCase([]byte(f.Text)); m != "" {
+							c := caseT{Layer: "syntax", Input: strconv.QuoteToASCII(f.Text)}
+							r.Violation(c.key(), m, c)
+						}
 					}
 					l.States++
 					l.Transitions++
